@@ -62,6 +62,15 @@ def mkfunc(module: str, qualname: str):
     return f
 
 
+class _RaisesKeyError(type):
+    def __getattr__(cls, name):
+        raise KeyError(name)   # a registry-style metaclass: unknown attribute names are unknown keys
+
+
+class Unserialisable2(metaclass=_RaisesKeyError):
+    """A class whose encoding fails with an error that is neither AttributeError nor TypeError."""
+
+
 class Unserialisable:
     """A 'type' whose encoding fails (no __qualname__)."""
 
@@ -75,6 +84,8 @@ def mktrace(spec: Tuple[str, str, str]):
     m, q, v = spec
     if v == "bad":
         return CallTrace(mkfunc(m, q), {"x": Unserialisable()}, int)  # type: ignore[dict-item]
+    if v == "bad2":
+        return CallTrace(mkfunc(m, q), {"x": Unserialisable2}, int)
     if v in ("yint", "ystr"):
         return CallTrace(mkfunc(m, q), {"x": int}, None, int if v == "yint" else str)
     if v == "bare":
@@ -86,7 +97,7 @@ def mktrace(spec: Tuple[str, str, str]):
 def row_of(spec: Tuple[str, str, str]) -> Optional[Tuple[str, str, str, Optional[str], Optional[str]]]:
     """The reference row (independent of monkeytype.encoding) for a serialisable spec; None for 'bad'."""
     m, q, v = spec
-    if v == "bad":
+    if v in ("bad", "bad2"):
         return None
     arg = '{"x": {"module": "builtins", "qualname": "int"}}'
     if v in ("yint", "ystr"):
@@ -115,6 +126,7 @@ BATCHES: List[List[Tuple[str, str, str]]] = [
     [("m", "x", "bad"), ("m", "x", "int"), ("m", "x", "str")],            # index 14: an unserialisable and two good traces of ONE function
     [("m", "x", "int")],                                                   # index 15: a good trace of the function whose trace failed before
     [("m", "noargs", "bare"), ("m2", "noargs", "bare")],                   # index 16: rows with no argument, no return and no yield type
+    [("m", "é", "int"), ("m", "y", "bad2"), ("m", "É", "str")],           # index 17: a trace whose encoding raises KeyError in mid-batch
 ]
 
 
@@ -305,6 +317,18 @@ def explore_histories(ctx: Ctx, depth: int) -> Result:
                                 if r is not None:
                                     m2[r] += 1
                         succ.append((ev, canon(m2, n2)))
+                        # EVERY transition is executed on the real store (also those into states already seen through
+                        # another history): the table must hold exactly the model's rows afterwards
+                        res.transitions += 1
+                        try:
+                            st2, model2 = apply_history(path, list(hist) + [ev])
+                            raw2 = indep_rows(path)
+                            for st_ in st2:
+                                st_.conn.close()
+                            if raw2 != m2:
+                                res.violate(Violation(ID, "content", "table-differs-from-model", {"part": "H", "history": [list(e) for e in list(hist) + [ev]]}, f"after {list(hist) + [ev]}: table {sorted(raw2.items(), key=repr)[:4]} != model {sorted(m2.items(), key=repr)[:4]}"))
+                        except Exception as e:  # noqa: BLE001
+                            res.violate(Violation(ID, "exception", "history", {"part": "H", "history": [list(e_) for e_ in list(hist) + [ev]]}, f"history {list(hist) + [ev]} raised {e!r}"))
                 for st in stores:
                     st.conn.close()
                 out.append((hist, succ))
